@@ -1,6 +1,7 @@
 """C14 - signal-to-data models obey their defining algebra."""
 import itertools
 import os
+import warnings
 
 import numpy as np
 from hypothesis import strategies as st
@@ -142,9 +143,12 @@ def check_clip(case):
     m, lo, hi = _build_clip(case)
     t = {"via": case["via"], "hi": "none" if hi is None else "set", "image": case["image"]}
     x0 = x.copy()
-    if case["image"] and x.ndim >= 2 and case["sig"]["kind"] in ("2d", "rgb"):
-        scalar = case["sig"]["kind"] == "2d"
-        img = darsia.Image(x.copy(), dimensions=[1.0, 2.0], scalar=scalar, name="sig")
+    if case["image"] and x.ndim >= 2 and case["sig"]["kind"] in ("2d", "rgb", "3d"):
+        scalar = case["sig"]["kind"] != "rgb"
+        if case["sig"]["kind"] == "3d":
+            img = darsia.Image(x.copy(), dimensions=[1.0, 2.0, 3.0], space_dim=3, scalar=True, name="sig")
+        else:
+            img = darsia.Image(x.copy(), dimensions=[1.0, 2.0], scalar=scalar, name="sig")
         before = gens.snapshot(img)
         out_img = m(img)
         if not isinstance(out_img, darsia.Image) or out_img is img:
@@ -152,9 +156,15 @@ def check_clip(case):
         ok, why = gens.snapshot_equal(before, gens.snapshot(img))
         if not ok:
             raise Violation("clip-input-modified", f"input image changed: {why}", t)
+        # "output type is the same as input type": the same image (metadata) with clipped values
+        after = gens.snapshot(out_img)
+        if after["meta"].keys() != before["meta"].keys() or \
+                any(after["meta"][k] != before["meta"][k] for k in before["meta"]):
+            raise Violation("clip-image-metadata", "ClipModel(Image): the metadata of the result differ from "
+                            "those of the input image", t)
         got = np.asarray(out_img.img)
         again = np.asarray(m(out_img).img)
-        form = "image"
+        form = "image3d" if case["sig"]["kind"] == "3d" else "image"
     else:
         got = np.asarray(m(x))
         again = np.asarray(m(got))
@@ -395,9 +405,9 @@ NAMES = {"clip": ["min_value", "max_value"], "scaling": ["scaling"], "linear": [
 
 @st.composite
 def gen_routing_cases(draw):
-    mode = draw(st.sampled_from(["none", "all", "single-entry", "single-entry", "model"]))
+    mode = draw(st.sampled_from(["none", "all", "single-entry", "single-entry", "model", "model"]))
     lab = draw(label_specs(max_extent=6))
-    nparts = 1 if mode == "model" else draw(st.integers(1, 4))
+    nparts = draw(st.sampled_from([1, 1, 2, 3])) if mode == "model" else draw(st.integers(1, 4))
     kinds = ("clip", "scaling", "linear", "linear", "hetlinear")
     parts = [draw(part_specs(kinds)) for _ in range(nparts)]
     for p in parts:
@@ -412,6 +422,8 @@ def gen_routing_cases(draw):
         case["target"] = k
         if mode == "model":
             case["dofs"] = draw(st.sampled_from([None, "all", sub, sub]))
+            # the part is addressed directly or through CombinedModel.__getitem__
+            case["access"] = draw(st.sampled_from(["direct", "item"]))
         else:
             case["dofs"] = sub
     return case
@@ -454,6 +466,8 @@ def check_routing(case):
     npar = [_npar(p, nlab) for p in parts]
     params = list(case["params"])
     expected = [dict(p) for p in parts]
+    cm = darsia.CombinedModel(models)
+    arr = None
     try:
         if mode in ("none", "all"):
             total = sum(npar)
@@ -464,11 +478,11 @@ def check_routing(case):
                 if p["kind"] == "clip":
                     vec[off: off + 2] = sorted(vec[off: off + 2])
                 off += n
-            cm = darsia.CombinedModel(models)
             if cm.num_parameters != total:
                 raise Violation("num-parameters", f"CombinedModel.num_parameters = {cm.num_parameters}, "
                                 f"parts need {npar}", t)
-            cm.update_model_parameters(np.array(vec), None if mode == "none" else "all")
+            arr = np.array(vec)
+            cm.update_model_parameters(arr, None if mode == "none" else "all")
             off = 0
             for i, (p, n) in enumerate(zip(parts, npar)):
                 expected[i] = _assign(p, NAMES[p["kind"]], vec[off: off + n], nlab)
@@ -487,16 +501,25 @@ def check_routing(case):
                     vec = [min(vec[0], p["hi"])]
                 else:
                     vec = [max(vec[0], p["lo"])]
+            arr = np.array(vec)
             if mode == "model":
-                models[k].update_model_parameters(np.array(vec), dofs)
+                if case.get("access") == "item":
+                    cm[k].update_model_parameters(arr, dofs)
+                else:
+                    # the caller's own reference; the combined model is assembled afterwards
+                    models[k].update_model_parameters(arr, dofs)
+                    cm = darsia.CombinedModel(models)
             else:
-                darsia.CombinedModel(models).update_model_parameters(np.array(vec), [(k, list(dofs))])
+                cm.update_model_parameters(arr, [(k, list(dofs))])
             expected[k] = _assign(p, names, vec, nlab)
     except Violation:
         raise
     except Exception as e:
         e.vf_tags = t
         raise
+    if not np.array_equal(arr, np.array(vec)):
+        raise Violation("routing:parameters-modified", f"mode={mode}: update_model_parameters changed the "
+                        "caller's parameter vector", t)
     # behavioural read-back: every part against the defining formula with the expected parameters
     x = gens.payload_array(list(labels.shape), "float64", case["pseed"], dyadic=True)
     for i, (mdl, q) in enumerate(zip(models, expected)):
@@ -511,10 +534,34 @@ def check_routing(case):
             raise Violation("routing:" + ("wrong-values" if touched else "other-part-changed"),
                             f"mode={mode} dofs={case.get('dofs')}: part {i} ({q['kind']}) does not behave "
                             f"like its formula with parameters {q}", t)
+    # "update_model_parameters(...) then model(signal)": the combined model itself is the sequential
+    # composition of the parts' formulas with the new parameters
+    want = x.copy()
+    for q in expected:
+        want = ref_part(q, want, labels=labels)
+
+    def end_to_end(kind, what):
+        try:
+            got = np.asarray(cm(x.copy()))
+        except Exception as e:
+            e.vf_tags = t
+            raise
+        if got.shape != want.shape or not np.array_equal(got, want):
+            raise Violation(kind, f"mode={mode} dofs={case.get('dofs')}: CombinedModel({t['parts']})(signal) "
+                            f"{what} differs from the composition of the parts' formulas with the updated "
+                            f"parameters {expected}", t)
+
+    end_to_end("routing:combined-after-update", "after the update")
+    if mode != "model":
+        # CombinedModel documents that it works on a copy of the flat vector: an optimiser re-using
+        # its buffer afterwards must not reach into the model
+        arr[...] = 64.0
+        end_to_end("routing:aliases-caller-vector", "after the caller overwrote its own parameter vector")
     return Outcome(len(parts) >= 2 or mode == "model", [case["mode"], parts, case["params"][:8], case.get("dofs"),
-                                                        case.get("target"), case["labels"]],
+                                                        case.get("target"), case["labels"], case.get("access")],
                    (f"mode-{mode}", f"parts{len(parts)}", f"dofs-{case.get('dofs')}")
-                   + tuple(sorted({p["kind"] for p in parts})))
+                   + ((f"access-{case.get('access')}",) if mode == "model" else ())
+                   + tuple(sorted({p["kind"] for p in parts})), evals=2 + len(parts))
 
 
 # ---------------------------------------------------------------------------------------
@@ -525,7 +572,7 @@ def check_routing(case):
 @st.composite
 def gen_hetero_cases(draw):
     flavour = draw(st.sampled_from(["hetlinear", "hetlinear", "hetlinear", "hetmodel-linear",
-                                    "hetmodel-clip", "hetmodel-kernel"]))
+                                    "hetmodel-clip", "hetmodel-kernel", "hetmodel-kernel"]))
     lab = draw(label_specs(max_extent=7 if flavour != "hetmodel-kernel" else 4))
     case = {"flavour": flavour, "labels": lab, "pseed": draw(st.integers(0, 2**20)),
             "s": [draw(dy(-3, 3, 4)) for _ in range(5)], "o": [draw(dy(-3, 3, 4)) for _ in range(5)],
@@ -536,8 +583,18 @@ def gen_hetero_cases(draw):
         case["calls"] = draw(st.lists(st.sampled_from([1, 1, 2, 0]), min_size=1, max_size=4))
         case["update"] = draw(st.sampled_from([None, "none", "all", "both", "scaling", "offset", "update"]))
         case["key"] = draw(st.sampled_from(["", "balancing "]))
+        # signal form: plain (H, W) or multichannel (H, W, 3) (the model masks / resizes by shape[:2]);
+        # label maps as they come out of segmentations: any integer type, ids beyond 255
+        case["chan"] = draw(st.sampled_from([0, 0, 0, 3]))
+        case["sdtype"] = draw(st.sampled_from(["float64", "float64", "float32"]))
+        case["ldtype"] = draw(st.sampled_from(["uint8", "uint8", "uint16", "int32", "int64"]))
     elif flavour == "hetmodel-kernel":
         case["kernel"] = draw(kernel_specs(max_n=3))
+        # the form MultichromaticTracerAnalysis uses: a data-less prototype inside a CombinedModel,
+        # labels calibrated one by one through item access - possibly not all of them
+        case["proto"] = draw(st.sampled_from(["data", "empty", "empty"]))
+        case["wrap"] = draw(st.booleans())
+        case["calibrated"] = [draw(st.sampled_from([True, True, True, False])) for _ in range(5)]
     return case
 
 
@@ -555,13 +612,19 @@ def _check_regions(got, x, labels, ids, s, o, t, what):
 def check_hetero(case):
     _numba_ready()
     labels = make_labels(case["labels"])
+    fl = case["flavour"]
+    ldtype = case.get("ldtype", "uint8") if fl == "hetlinear" else "uint8"
+    if ldtype != "uint8":
+        labels = labels.astype(ldtype)
+        labels[labels == 200] = 300  # an id that does not fit into 8 bits
     ids = np.unique(labels)
     n = len(ids)
-    fl = case["flavour"]
     t = {"flavour": fl, "nlabels": n}
     rng_seed = case["pseed"]
     evals = 0
     if fl == "hetlinear":
+        chan, sdtype = case.get("chan", 0), case.get("sdtype", "float64")
+        t.update(ldtype=ldtype, chan=chan, sdtype=sdtype)
         s, o = list(case["s"][:n]), list(case["o"][:n])
         key = case["key"]
         init = case["init"]
@@ -588,7 +651,8 @@ def check_hetero(case):
                     lab_f = labels[::2, ::2]  # only its shape is used, see below
                 else:
                     lab_f = upsample2(labels) if f == 2 else labels
-                x = gens.payload_array(list(lab_f.shape), "float64", rng_seed + k, dyadic=True)
+                x = gens.payload_array(list(lab_f.shape) + ([chan] if chan else []), sdtype, rng_seed + k,
+                                       dyadic=True)
                 x0 = x.copy()
                 try:
                     got = np.asarray(m(x))
@@ -602,7 +666,10 @@ def check_hetero(case):
                     # which label a coarse voxel gets is the resampler's business; every value must
                     # still be the homogeneous model of *some* label, and later calls must be exact
                     cand = np.stack([s[i] * x0 + o[i] for i in range(n)], axis=0)
-                    if got.shape != x0.shape or not np.all(np.any(cand == got[None], axis=0)):
+                    hit = cand == got[None] if got.shape == x0.shape else None
+                    if chan and hit is not None:
+                        hit = np.all(hit, axis=-1)  # one label per voxel, the same for all channels
+                    if hit is None or not np.all(np.any(hit, axis=0)):
                         raise Violation("hetero-coarse", f"{tag} call {k + 1} (half resolution): a value is "
                                         "not the homogeneous model of any label", t)
                     continue
@@ -630,10 +697,12 @@ def check_hetero(case):
         if not np.array_equal(labels, lab_before):
             raise Violation("hetero-labels-modified", "label array changed", t)
         resized = 2 in case["calls"] or 0 in case["calls"]
-        return Outcome(n >= 2, [case["labels"], s, o, case["calls"], case["update"], init],
+        return Outcome(n >= 2, [case["labels"], s, o, case["calls"], case["update"], init, ldtype, chan, sdtype],
                        (f"labels{n}", "hetlinear", f"init-{init}", f"update-{up}",
                         "resized" if resized else "same-resolution",
-                        "shape-changes" if len(set(case["calls"])) > 1 else "shape-constant"), evals=evals)
+                        "shape-changes" if len(set(case["calls"])) > 1 else "shape-constant",
+                        f"labels-{ldtype}", f"signal-{sdtype}", "multichannel" if chan else "scalar-signal",
+                        "label-id-300" if 300 in ids else "label-ids-8bit"), evals=evals)
     # ---- HeterogeneousModel(obj, labels Image) ----
     lab_img = darsia.Image(labels.copy(), dimensions=[1.0, 1.0], scalar=True)
     if fl == "hetmodel-linear":
@@ -665,28 +734,59 @@ def check_hetero(case):
         evals = 1
     else:
         kspec = case["kernel"]
-        proto, _, _ = build_kernel_model(kspec)
-        het = darsia.HeterogeneousModel(proto, lab_img)
+        empty = case.get("proto", "data") == "empty"
+        wrap = bool(case.get("wrap", False))
+        calibrated = list(case.get("calibrated", [True] * 5))[:n]
+        t.update(proto="empty" if empty else "data", wrap=wrap)
+
+        def prototype():
+            if empty:
+                with warnings.catch_warnings():
+                    warnings.simplefilter("ignore", UserWarning)  # "No input data given."
+                    return darsia.KernelInterpolation(make_kernel(kspec["ktype"], kspec["par"]))
+            return build_kernel_model(kspec)[0]
+
+        het = darsia.HeterogeneousModel(prototype(), lab_img)
+        cm = darsia.CombinedModel([het]) if wrap else None
         x = np.random.default_rng(rng_seed).integers(0, 101, size=(*labels.shape, kspec["d"])) / 100.0
         x = x.astype(np.float32)
+        x0 = x.copy()
+
+        def compare(homogeneous, stage):
+            got = np.asarray(cm(x) if wrap else het(x))
+            if not np.array_equal(x, x0):
+                raise Violation("hetero-input-modified", "signal changed", t)
+            if got.shape != labels.shape:
+                raise Violation("hetero-shape", f"{x.shape} -> {got.shape}", t)
+            for i, lab in enumerate(ids):
+                reg = labels == lab
+                want = np.asarray(homogeneous[i](x0[reg]))
+                tol = 1e-5 * (1.0 + float(np.abs(want).max()))
+                if want.shape != got[reg].shape or not np.all(np.abs(got[reg] - want) <= tol):
+                    raise Violation("hetero-region", f"HeterogeneousModel(KernelInterpolation) {stage}: region "
+                                    f"of label {lab} differs from the homogeneous interpolation of that label "
+                                    f"by {float(np.abs(got[reg] - want).max()):.3e}", t)
+
+        # before any calibration every label behaves like the prototype (checked for the data-less
+        # prototype, which costs no kernel evaluations)
+        proto_h = prototype()  # homogeneous reference (evaluation does not change a model)
+        if empty:
+            compare([proto_h] * n, "before calibration")
         fresh = []
         for i, lab in enumerate(ids):
+            if not calibrated[i]:
+                fresh.append(proto_h)
+                continue
             ks = dict(kspec, pseed=kspec["pseed"] + 1 + i)
             mdl, sup, val = build_kernel_model(ks)
-            het[lab].update(supports=sup, values=val)
+            (cm[0] if wrap else het)[lab].update(supports=sup, values=val)
             fresh.append(mdl)
-        got = np.asarray(het(x))
-        if got.shape != labels.shape:
-            raise Violation("hetero-shape", f"{x.shape} -> {got.shape}", t)
-        for i, lab in enumerate(ids):
-            reg = labels == lab
-            want = np.asarray(fresh[i](x[reg]))
-            tol = 1e-5 * (1.0 + float(np.abs(want).max()))
-            if not np.all(np.abs(got[reg] - want) <= tol):
-                raise Violation("hetero-region", f"HeterogeneousModel(KernelInterpolation): region of label "
-                                f"{lab} differs from the homogeneous interpolation of that label by "
-                                f"{float(np.abs(got[reg] - want).max()):.3e}", t)
-        evals = n
+        compare(fresh, "after label-wise calibration")
+        evals = 2 * n if empty else n
+        return Outcome(n >= 2, [case["labels"], fl, case["pseed"], kspec, empty, wrap, calibrated],
+                       (f"labels{n}", fl, "prototype-empty" if empty else "prototype-with-data",
+                        "inside-combined" if wrap else "bare",
+                        "all-labels-calibrated" if all(calibrated) else "some-labels-uncalibrated"), evals=evals)
     return Outcome(n >= 2, [case["labels"], fl, case["pseed"], case["s2"][:n], case["o2"][:n]],
                    (f"labels{n}", fl), evals=evals)
 
@@ -702,7 +802,8 @@ def gen_threshold_cases(draw):
     lab = draw(label_specs())
     case = {"hetero": hetero, "labels": lab, "mask": draw(st.booleans()),
             "return_float": draw(st.booleans()), "pseed": draw(st.integers(0, 2**20)),
-            "upper": draw(st.sampled_from(["none", "set", "set"]))}
+            "upper": draw(st.sampled_from(["none", "set", "set"])),
+            "xdtype": draw(st.sampled_from(["float64", "float64", "float32"]))}
     lows = [draw(dy(-2, 1, 4)) for _ in range(5)]
     case["lo"] = lows
     case["hi"] = [lo + draw(dy(0, 3, 4)) for lo in lows]
@@ -734,7 +835,7 @@ def check_threshold(case):
         lo = [lo[0]] * n
         hi = None if hi is None else [hi[0]] * n
     # quarter-grid values so that signals hit the bounds exactly
-    x = rng.integers(-12, 17, size=shape) / 4.0
+    x = (rng.integers(-12, 17, size=shape) / 4.0).astype(case.get("xdtype", "float64"))
     mask = rng.integers(0, 2, size=shape).astype(bool) if case["mask"] else None
     if het:
         conv = {"list": list, "array": np.array, "float": lambda v: float(v[0])}[case["form"]]
@@ -762,6 +863,14 @@ def check_threshold(case):
         raise Violation("threshold-shape", f"{want.shape} -> {got.shape}", t)
     if got.dtype != bool and not np.all((got == 0) | (got == 1)):
         raise Violation("threshold-values", f"non-binary output values (dtype {got.dtype})", t)
+    # documented: "return_float (bool): flag controlling whether the output is a float or boolean";
+    # restricted to a mask the result is the "boolean mask" of the docstring (not asserted for the
+    # undocumented combination mask + return_float)
+    if not case["return_float"] and got.dtype != bool:
+        raise Violation("threshold-dtype:bool", f"return_float=False: output dtype {got.dtype}, expected bool", t)
+    if case["return_float"] and mask is None and not np.issubdtype(got.dtype, np.floating):
+        raise Violation("threshold-dtype:float", f"return_float=True: output dtype {got.dtype}, expected a "
+                        "floating-point array of zeros and ones", t)
     gb = got.astype(bool)
     if not np.array_equal(gb, want):
         bad = tuple(np.argwhere(gb != want)[0])
@@ -779,10 +888,11 @@ def check_threshold(case):
                         "not raise NotImplementedError", t)
     hits = bool(np.any(np.isin(x, lo)) or (hi is not None and np.any(np.isin(x, hi))))
     return Outcome(n >= 2 or hits, [case["labels"] if het else case["sig"], lo, hi, case["mask"],
-                                    case["return_float"], case["pseed"], case["form"]],
+                                    case["return_float"], case["pseed"], case["form"], case.get("xdtype")],
                    ("heterogeneous" if het else "homogeneous", f"labels{n}",
                     "mask" if case["mask"] else "nomask", "float" if case["return_float"] else "bool",
-                    f"upper-{case['upper']}", "bound-hit" if hits else "no-bound-hit"))
+                    f"upper-{case['upper']}", "bound-hit" if hits else "no-bound-hit",
+                    "signal-" + case.get("xdtype", "float64")))
 
 
 # ---------------------------------------------------------------------------------------
@@ -791,16 +901,16 @@ def check_threshold(case):
 
 
 @st.composite
-def kernel_specs(draw, max_n=4, dims=(3, 3, 3, 2, 1)):
+def kernel_specs(draw, max_n=4, dims=(3, 3, 3, 2, 1), ns=(1, 2, 2, 3, 3, 4)):
     ktype = draw(st.sampled_from(["gaussian", "gaussian", "linear"]))
     d = draw(st.sampled_from(list(dims)))
     if ktype == "gaussian":
         par = draw(st.sampled_from([0.5, 1.0, 2.0, 4.0, 8.0, 9.73]))
-        n = min(max_n, draw(st.sampled_from([1, 2, 2, 3, 3, 4])))
+        n = min(max_n, draw(st.sampled_from(list(ns))))
     else:
         par = draw(st.sampled_from([0.0, 0.0, 0.25, 1.0]))
         nmax = min(max_n, d + (1 if par > 0 else 0))
-        n = min(nmax, draw(st.sampled_from([1, 2, 2, 3, 3, 4])))
+        n = min(nmax, draw(st.sampled_from(list(ns))))
     return {"ktype": ktype, "par": par, "n": n, "d": d, "pseed": draw(st.integers(0, 2**20))}
 
 
@@ -879,11 +989,15 @@ def kernel_tol(ktype, par, weights, pts, sup, vmax):
 
 @st.composite
 def gen_kernel_cases(draw):
-    spec = draw(kernel_specs())
+    update = draw(st.sampled_from([None, None, None, "values", "kernel", "kernel+values", "all", "none",
+                                   "update-supports", "append", "append", "advanced", "advanced"]))
+    # AdvancedKernelInterpolation works on colour triplets only (reshape(-1, 3))
+    spec = draw(kernel_specs(dims=(3,), ns=(2, 2, 3, 3, 4))) if update == "advanced" else draw(kernel_specs())
     return {"k": spec, "form": draw(st.sampled_from(["batch", "single", "image"])),
-            "update": draw(st.sampled_from([None, None, "values", "kernel", "kernel+values", "all", "none",
-                                            "update-supports", "append", "append"])),
-            "par2": draw(st.sampled_from([0.5, 2.0, 6.0])), "as_list": draw(st.booleans())}
+            "update": update,
+            "par2": draw(st.sampled_from([0.5, 2.0, 6.0])), "as_list": draw(st.booleans()),
+            # hand one support over twice (same value): the model reduces to the distinct supports
+            "dup": update is None and draw(st.sampled_from([False, True]))}
 
 
 def _eval_at_supports(m, sup, form):
@@ -910,17 +1024,26 @@ def check_kernel_reproduces(case):
     # hand the supports over in a scrambled order: value i must stay attached to support i
     perm = np.random.default_rng(spec["pseed"] + 5).permutation(len(sup))
     sup_in, val_in = sup[perm], val[perm]
-    if case["as_list"]:
-        m = darsia.KernelInterpolation(make_kernel(spec["ktype"], spec["par"]),
-                                       supports=sup_in.tolist(), values=val_in.tolist())
-    else:
-        m = darsia.KernelInterpolation(make_kernel(spec["ktype"], spec["par"]), supports=sup_in.copy(),
-                                       values=val_in.copy())
+    sup_give, val_give = sup_in, val_in
+    dup = bool(case.get("dup", False))
+    if dup:
+        drng = np.random.default_rng(spec["pseed"] + 13)
+        j, at = int(drng.integers(0, len(sup_in))), int(drng.integers(0, len(sup_in) + 1))
+        sup_give = np.insert(sup_in, at, sup_in[j], axis=0)
+        val_give = np.insert(val_in, at, val_in[j])
+    with warnings.catch_warnings():
+        warnings.simplefilter("ignore", UserWarning)  # "Supports are not unique."
+        if case["as_list"]:
+            m = darsia.KernelInterpolation(make_kernel(spec["ktype"], spec["par"]),
+                                           supports=sup_give.tolist(), values=val_give.tolist())
+        else:
+            m = darsia.KernelInterpolation(make_kernel(spec["ktype"], spec["par"]), supports=sup_give.copy(),
+                                           values=val_give.copy())
     ktype, par = spec["ktype"], spec["par"]
 
-    def verify(sup_chk, val_chk, xm, stage):
+    def verify(sup_chk, val_chk, xm, stage, model=None):
         w = np.linalg.solve(xm, val_chk)
-        got = _eval_at_supports(m, sup_chk, case["form"])
+        got = _eval_at_supports(m if model is None else model, sup_chk, case["form"])
         tol = kernel_tol(ktype, par, w, sup_chk, sup_chk, float(np.abs(val_chk).max()))
         err = float(np.abs(got - val_chk).max())
         if _CAL is not None:
@@ -930,9 +1053,31 @@ def check_kernel_reproduces(case):
                             f"form={case['form']}: max |model(support_i) - value_i| = {err:.3e} "
                             f"(tol {tol:.2e})", t)
 
-    verify(sup_in, val_in, xmat[np.ix_(perm, perm)], "initial")
+    verify(sup_in, val_in, xmat[np.ix_(perm, perm)], "initial-duplicate-support" if dup else "initial")
     evals = 1
     up = case["update"]
+    if up == "advanced":
+        # fixed + variable supports: the union is interpolated; afterwards only the variable values move
+        k = 1 + int(np.random.default_rng(spec["pseed"] + 9).integers(0, len(sup_in) - 1))
+        conv = (lambda a: a.tolist()) if case["as_list"] else (lambda a: a.copy())
+        try:
+            with warnings.catch_warnings():
+                warnings.simplefilter("ignore", UserWarning)  # data-less constructor
+                adv = darsia.AdvancedKernelInterpolation(make_kernel(spec["ktype"], spec["par"]))
+            adv.update_advanced(fixed_supports=conv(sup_in[:k]), fixed_values=conv(val_in[:k]),
+                                variable_supports=conv(sup_in[k:]), variable_values=conv(val_in[k:]))
+            verify(sup_in, val_in, xmat[np.ix_(perm, perm)], "advanced", adv)
+            val2 = val_in.copy()
+            val2[k:] = make_values(spec, salt=1)[: len(sup_in) - k]
+            adv.update_variable_model_parameters(val2[k:].copy())
+            verify(sup_in, val2, xmat[np.ix_(perm, perm)], "advanced-variable-update", adv)
+        except Violation:
+            raise
+        except Exception as e:
+            e.vf_tags = t
+            raise
+        return Outcome(True, [spec, case["form"], up, k, case["as_list"]],
+                       (spec["ktype"], f"n{len(sup_in)}", "advanced", case["form"], f"fixed{k}"), evals=3)
     if up == "append":
         # a second model built from the first k supports, the rest appended by update(append=True):
         # every value stays attached to its own support
@@ -949,14 +1094,23 @@ def check_kernel_reproduces(case):
         verify(sup_in, val_in, xmat[np.ix_(perm, perm)], "after-append")
         return Outcome(True, [spec, case["form"], up, k], (f"n{len(sup_in)}", "append", case["form"]), evals=2)
     if up is not None:
-        # the model keeps its supports sorted; updated values refer to model.supports
+        # updated values refer to model.supports; the model may keep them in any order (it sorts them)
         msup = np.asarray(m.supports, dtype=np.float64)
-        if msup.shape != sup.shape or not np.allclose(msup, sup, rtol=0, atol=2e-6):
-            raise Violation("kernel-supports", "model.supports is not the (sorted) set of supports handed in", t)
+        match = None
+        if msup.shape == sup.shape:
+            dist = np.abs(msup[:, None, :] - sup[None, :, :]).max(axis=-1)
+            match = np.argmin(dist, axis=1)
+            if sorted(match.tolist()) != list(range(len(sup))) or \
+                    float(dist[np.arange(len(sup)), match].max()) > 2e-5:
+                match = None
+        if match is None:
+            raise Violation("kernel-supports", "model.supports is not the set of supports handed in", t)
+        msup, xmat, val = sup[match], xmat[np.ix_(match, match)], val[match]
         val2 = make_values(spec, salt=1)
         par2 = case["par2"] if ktype == "gaussian" else (0.5 if spec["n"] <= spec["d"] else par)
         k2 = make_kernel(ktype, par2)
-        xm2 = np.array([[ref_kernel(ktype, par2, a, b) for b in msup] for a in msup])
+        m32 = msup.astype(np.float32).astype(np.float64)
+        xm2 = np.array([[ref_kernel(ktype, par2, a, b) for b in m32] for a in m32])
         try:
             if up == "values":
                 m.update_model_parameters(val2.copy(), ["values"])
@@ -989,8 +1143,9 @@ def check_kernel_reproduces(case):
             verify(msup, vv, xm, "after-kernel-update" if up in ("kernel", "kernel+values", "all", "none")
                    else f"after-{up}")
             evals += 1
-    return Outcome(spec["n"] >= 2, [spec, case["form"], case["update"], case["par2"]],
-                   (spec["ktype"], f"n{spec['n']}", f"d{spec['d']}", case["form"], f"update-{case['update']}"),
+    return Outcome(spec["n"] >= 2, [spec, case["form"], case["update"], case["par2"], dup],
+                   (spec["ktype"], f"n{spec['n']}", f"d{spec['d']}", case["form"], f"update-{case['update']}",
+                    "duplicate-support" if dup else "supports-distinct"),
                    evals=evals)
 
 
@@ -1004,20 +1159,43 @@ def gen_fast_cases(draw):
                                                       else [0.0, 0.25, 1.0])),
             "n": draw(st.sampled_from([1, 2, 2, 3, 4, 5])), "d": d, "shape": shape,
             "pseed": draw(st.integers(0, 2**20)),
-            "range": draw(st.sampled_from(["unit", "signed"]))}
+            "range": draw(st.sampled_from(["unit", "signed"])),
+            # memory layout of the signal: images reach the kernels also as views (sub-regions, flipped or
+            # transposed images), not only as freshly allocated C-ordered arrays
+            "layout": draw(st.sampled_from(["c", "c", "strided", "reversed", "fortran"]))}
+
+
+def _with_layout(arr, layout):
+    """an array with the values of `arr` and the requested memory layout."""
+    if layout == "strided":
+        big = np.zeros(tuple(2 * n for n in arr.shape), dtype=arr.dtype)
+        view = big[tuple(slice(None, None, 2) for _ in arr.shape)]
+        view[...] = arr
+        return view
+    if layout == "reversed":
+        return arr[tuple(slice(None, None, -1) for _ in arr.shape)].copy()[
+            tuple(slice(None, None, -1) for _ in arr.shape)]
+    if layout == "fortran":
+        return np.asfortranarray(arr)
+    return arr
 
 
 def check_kernel_fast(case):
     _numba_ready()
     rng = np.random.default_rng(case["pseed"])
     lo = 0 if case["range"] == "unit" else -100
-    sig = (rng.integers(lo, 101, size=case["shape"]) / 100.0).astype(np.float32)
+    layout = case.get("layout", "c")
+    sig = _with_layout((rng.integers(lo, 101, size=case["shape"]) / 100.0).astype(np.float32), layout)
     sup = (rng.integers(lo, 101, size=(case["n"], case["d"])) / 100.0).astype(np.float32)
     w = (rng.integers(-16, 17, size=case["n"]) / 4.0).astype(np.float32)
     k = make_kernel(case["ktype"], case["par"])
-    t = {"ktype": case["ktype"], "ndim": len(case["shape"]), "n": case["n"], "d": case["d"]}
+    t = {"ktype": case["ktype"], "ndim": len(case["shape"]), "n": case["n"], "d": case["d"], "layout": layout}
     s0 = sig.copy()
-    fast = np.asarray(k.linear_combination(sig, sup, w))
+    try:
+        fast = np.asarray(k.linear_combination(sig, sup, w))
+    except Exception as e:
+        e.vf_tags = t
+        raise
     plain = np.asarray(BaseKernel.linear_combination(k, sig, sup, w))
     ref = sum(float(w[n]) * ref_kernel(case["ktype"], case["par"], sig, sup[n]) for n in range(case["n"]))
     ref = np.asarray(ref)
@@ -1036,8 +1214,10 @@ def check_kernel_fast(case):
     if not e2 <= tol:
         raise Violation(f"kernel-fast-vs-formula:{case['ktype']}", f"numba linear_combination differs from the "
                         f"float64 kernel formula by {e2:.3e} (tol {tol:.2e})", t)
-    return Outcome(case["n"] >= 2, [case["ktype"], case["par"], case["n"], case["shape"], case["pseed"], case["range"]],
-                   (case["ktype"], f"ndim{len(case['shape'])}", f"n{case['n']}", f"d{case['d']}", case["range"]))
+    return Outcome(case["n"] >= 2, [case["ktype"], case["par"], case["n"], case["shape"], case["pseed"], case["range"],
+                                    layout],
+                   (case["ktype"], f"ndim{len(case['shape'])}", f"n{case['n']}", f"d{case['d']}", case["range"],
+                    f"layout-{layout}"))
 
 
 # ---------------------------------------------------------------------------------------
@@ -1102,7 +1282,13 @@ _RULE = ("Hypothesis draws the signal form (1-D, Nx3 pixel list, 2-D, 3-D, HxWx3
          "with 1..5 distinct uint8 labels (every label present), 1-4 parts of a combined model, "
          "Gaussian (gamma 0.5..9.73) / linear (a 0..1) kernels with 1..4 supports on the 1/100 grid "
          "(pairwise distance >= 0.3, cond(X) <= 1e3, else re-drawn deterministically), polynomial "
-         "degrees 0..4 enumerated; non-trivial = clipping active / s,o non-default / >= 2 parts / "
+         "degrees 0..4 enumerated; further classes: Images in 2-D, RGB and 3-D for ClipModel, label maps of "
+         "type uint8/uint16/int32/int64 (id 300), multichannel and float32 signals for the label-wise linear "
+         "model, data-less KernelInterpolation prototypes inside CombinedModel([HeterogeneousModel]) "
+         "calibrated label by label through item access (not necessarily all labels), a support handed "
+         "over twice, AdvancedKernelInterpolation (fixed + variable supports), float32 threshold signals, "
+         "C-ordered / strided / reversed / Fortran-ordered kernel signals; "
+         "non-trivial = clipping active / s,o non-default / >= 2 parts / "
          ">= 2 labels or a signal value on a bound / >= 2 supports / degree >= 2; distinct = the case "
          "without duplicates")
 
@@ -1114,7 +1300,15 @@ PROP = Prop(
         "kernel laws: backward-error tolerance 4 eps32 sum|w_n| U + 4 eps32 |v|max with U = d+6+n "
         "(Gaussian) or (max sum_j|x_j s_j| + a)(d+n+2) (linear): float32 evaluation, fast-math exp, "
         "float32-rounded kernel matrix",
-        "updated values of a KernelInterpolation refer to model.supports (the model sorts its supports)",
+        "updated values of a KernelInterpolation refer to model.supports, in whatever order the model keeps "
+        "them (only required: the same set of supports as handed in)",
+        "CombinedModel works on its own copy of the flat parameter vector (stated in its source): overwriting "
+        "the caller's vector afterwards must not change the model; not asserted for single models",
+        "StaticThresholdModel: bool output without return_float, floating output with return_float and no "
+        "mask; the type for mask + return_float is not asserted (undocumented)",
+        "LinearModel / ScalingModel / CombinedModel are given arrays only (documented np.ndarray; darsia.Image "
+        "has no float arithmetic); only ClipModel documents Image input",
+        "a support handed over twice carries the same value both times",
         "multi-entry dofs lists of CombinedModel are not asserted (undocumented layout); parts without "
         "num_parameters (KernelInterpolation) are not routed through CombinedModel",
         "label maps are resized only by the exact factor 2 (nearest neighbour = block replication)",
@@ -1129,7 +1323,7 @@ PROP = Prop(
         Sub("flat_parameter_routing", check_routing, gen=lambda tier: gen_routing_cases(),
             n={"quick": 800, "thorough": 20000}, shards={"quick": 2, "thorough": 16}),
         Sub("heterogeneous_matches_homogeneous", check_hetero, gen=lambda tier: gen_hetero_cases(),
-            n={"quick": 600, "thorough": 12000}, shards={"quick": 3, "thorough": 16}),
+            n={"quick": 600, "thorough": 12000}, shards={"quick": 4, "thorough": 16}),
         Sub("static_threshold_exact", check_threshold, gen=lambda tier: gen_threshold_cases(),
             n={"quick": 800, "thorough": 20000}, shards={"quick": 1, "thorough": 8}),
         Sub("kernel_reproduces_values", check_kernel_reproduces, gen=lambda tier: gen_kernel_cases(),
